@@ -480,8 +480,11 @@ func (w *world) actChainTomb() {
 	}
 	m.accepted = true
 	w.setGone(m, "has expiration")
+	// the shard finds the parts through the stored last part (it carries the parent
+	// ID); with several shards the parts may live on different shards (no LINK
+	// object is generated here), so nothing is claimed then
 	discoverable := false
-	if l := w.objs[id{c, partLast}]; l != nil && l.accepted {
+	if l := w.objs[id{c, partLast}]; l != nil && l.accepted && len(w.st.shards()) == 1 {
 		discoverable = true
 	}
 	first := !w.chainTomb[c]
